@@ -153,7 +153,10 @@ pub fn run_case(c: &Case) -> Result<Vec<(String, String, String)>, String> {
         let (p, j) = (view(&w, 0), view(&w, 1));
         for (db, (tok, strat, keys)) in p.iter() {
             match j.get(db) {
-                None => out.push(("database-missing-on-joiner".to_string(), "database missing".to_string(), format!("database {} of the primary does not exist on the joiner", db))),
+                None => {
+                    let when = if c.away.iter().any(|o| matches!(o, Op::CreateDb(d, _) if *d == db.as_str())) { "created while the joiner was away" } else { "created before the joiner left" };
+                    out.push(("database-missing-on-joiner".to_string(), format!("database missing ({})", when), format!("database {} of the primary does not exist on the joiner", db)))
+                }
                 Some((jtok, jstrat, jkeys)) => {
                     if jtok != tok {
                         out.push(("database-token-differs".to_string(), "token".to_string(), format!("database {}: token {:?} on the primary, {:?} on the joiner", db, tok, jtok)));
@@ -202,6 +205,7 @@ pub fn cases(quick: bool) -> Vec<Case> {
     letters.push(Op::Inc("d1", "n"));
     letters.push(Op::Snapshot("d1"));
     letters.push(Op::CreateDb("d2", "arbiter"));
+    letters.push(Op::CreateDb("d3", "none"));
     let max = if quick { 2 } else { 3 };
     fn rec(cur: &mut Vec<Op>, letters: &[Op], max: usize, out: &mut Vec<Vec<Op>>) {
         if !cur.is_empty() {
